@@ -92,6 +92,9 @@ pub struct Probe {
 pub enum AdminOp {
     SetClaim(bool),
     MinStake(U),
+    /// Boundary: set the minimum to the value the position would keep after unstaking
+    /// `staked × frac / 256`, plus `off`.
+    MinStakeAt { pos: PosRef, frac: u8, off: i8 },
     Range { start: u8, end: u8, values: Vec<U> },
     Sparse { idx: Vec<u8>, values: Vec<U> },
     Disable { market: u8 },
@@ -194,9 +197,6 @@ impl<'a> Sim<'a> {
         }
         let b = reward_bounds(value, total, &self.grad, integral);
         obs.probe(dur_class(total));
-        if b.hi == u64::MAX {
-            obs.probe("reward_saturated");
-        }
         if b.lo > 0 {
             obs.probe("reward_positive");
         }
@@ -207,6 +207,31 @@ impl<'a> Sim<'a> {
             || format!("op={tag},dir={},dur={}", if minted < b.lo { "low" } else { "high" }, dur_class(total)),
             || format!("minted={minted} expected in [{}, {}] value={value} total_s={total} integral={integral} start={start} end={end}", b.lo, b.hi),
         )
+    }
+
+    /// Reasons for which the program (or the store's GT mint) legitimately rejects a claim / exit of an
+    /// open position: negative accrual window (after a clock regression) or a reward so large that the
+    /// store's minting-cost growth loop may overflow.
+    fn legit_rejection(&self, mp: &MPos, market: usize) -> Option<&'static str> {
+        let (end, cum_now) = match self.disabled[market] {
+            Some(x) => x,
+            None => {
+                let g = read_gt(&self.w, self.d);
+                let now = self.now();
+                let dt = (now - g.last_ts).max(0) as u128;
+                (now, g.cum + if g.cost == 0 { 0 } else { dt * UNIT / g.cost })
+            }
+        };
+        if end < mp.start {
+            return Some("negative_window");
+        }
+        let total = (end - mp.start) as u128;
+        let integral = cum_now.saturating_sub(mp.snap);
+        let hi = if total == 0 { 0 } else { reward_bounds(mp.value, total, &self.grad, integral).hi };
+        if self.mint_may_overflow(hi) {
+            return Some("mint_overflow");
+        }
+        None
     }
 
     fn mint_may_overflow(&self, hi: u64) -> bool {
@@ -382,8 +407,11 @@ impl<'a> Sim<'a> {
         let mp = self.pos.get(&p).cloned();
         if !out.ok {
             if let Some(mp) = &mp {
-                if self.claim_enabled && opts.fail_cpi_at.is_none() && self.now() >= mp.start {
-                    obs.probe("claim_unexpected_failure");
+                if self.claim_enabled && opts.fail_cpi_at.is_none() {
+                    match self.legit_rejection(mp, m) {
+                        Some(why) => obs.probe(&format!("claim_rejected_{why}")),
+                        None => obs.probe("claim_unexpected_failure"),
+                    }
                 }
             }
             if !self.claim_enabled {
@@ -468,24 +496,8 @@ impl<'a> Sim<'a> {
                 // Oracle 4 / 3: a full exit is always allowed (also while claims are disabled, also with
                 // dust in the vault) unless the accrual window is negative (clock regression) or the GT
                 // mint itself would overflow at the store.
-                let (end, cum_now) = match self.disabled[m] {
-                    Some(x) => x,
-                    None => {
-                        let g = read_gt(&self.w, self.d);
-                        let now = self.now();
-                        let dt = (now - g.last_ts).max(0) as u128;
-                        (now, g.cum + if g.cost == 0 { 0 } else { dt * UNIT / g.cost })
-                    }
-                };
-                if end < mp.start {
-                    obs.probe("full_exit_rejected_negative_window");
-                    return;
-                }
-                let total = (end - mp.start) as u128;
-                let integral = cum_now.saturating_sub(mp.snap);
-                let hi = if total == 0 { 0 } else { reward_bounds(mp.value, total, &self.grad, integral).hi };
-                if self.mint_may_overflow(hi) {
-                    obs.probe("full_exit_rejected_mint_overflow");
+                if let Some(why) = self.legit_rejection(&mp, m) {
+                    obs.probe(&format!("full_exit_rejected_{why}"));
                     return;
                 }
                 obs.violation(
@@ -519,6 +531,9 @@ impl<'a> Sim<'a> {
         self.gt[u] = self.gt[u].wrapping_add(minted);
         let new_value = if remaining == 0 { 0 } else { scaled_value(mp.value, remaining, mp.amount) };
         let full = remaining == 0 || new_value < self.min_stake;
+        if remaining > 0 && new_value == self.min_stake {
+            obs.probe("partial_value_exactly_at_min");
+        }
         let bal = self.gm_balance(u, m);
         let vault_acc = self.w.get(&keys.1).is_some();
         let pos_acc = read_position(&self.w, &keys.0);
@@ -586,6 +601,25 @@ impl<'a> Sim<'a> {
                 obs.event(|| format!("min_stake {} -> {}", v.0, out.class()));
                 if out.ok {
                     self.min_stake = v.0;
+                }
+            }
+            AdminOp::MinStakeAt { pos, frac, off } => {
+                let p = self.norm(*pos);
+                let v = match self.pos.get(&p) {
+                    Some(mp) => {
+                        let amount = ((mp.amount as u128 * *frac as u128) / 256) as u64;
+                        let remaining = mp.amount - amount;
+                        let nv = if remaining == 0 { 0 } else { scaled_value(mp.value, remaining, mp.amount) };
+                        if *off >= 0 { nv.saturating_add(*off as u128) } else { nv.saturating_sub(off.unsigned_abs() as u128) }
+                    }
+                    None => 0,
+                };
+                let out = self.w.process(min_stake_ix(self.a, &signer, v));
+                obs.outcome(role, "min_stake_at_boundary", &out.class());
+                obs.event(|| format!("min_stake_at {p:?} frac={frac} off={off} -> {v} {}", out.class()));
+                if out.ok {
+                    self.min_stake = v;
+                    obs.probe("min_stake_boundary_set");
                 }
             }
             AdminOp::Range { start, end, values } => {
@@ -969,6 +1003,15 @@ impl Scenario for LpStaking {
                     Step::User { op: Op::Unstake { pos, amt }, who, deliver, fail_cpi, probe: probe(&mut r) }
                 }
                 3 => Self::gen_clock(&mut r, mode, faults, &open),
+                4 if !open.is_empty() && r.chance(1, 6) => {
+                    // boundary pair: minimum stake value set to what a partial unstake would leave (±1),
+                    // immediately followed by that partial unstake
+                    let pos = *r.pick(&open);
+                    let frac = r.range(1, 255) as u8;
+                    let off = r.range_i64(-1, 1) as i8;
+                    steps.push(Step::Admin { op: AdminOp::MinStakeAt { pos, frac, off }, stranger: false });
+                    Step::User { op: Op::Unstake { pos, amt: Amt::Frac(frac) }, who: Who::Owner, deliver: Deliver::Now, fail_cpi: 0, probe: None }
+                }
                 4 => {
                     let stranger = faults && r.chance(1, 8);
                     let op = match r.below(12) {
